@@ -231,15 +231,44 @@ def neutral(it, result, label_obj=None, new_structs=()):
         want = (1 if (result is not NULL and o is result) else 0) + held.get(oid, 0)
         if d != want:
             bad.append("%s: delta %+d (expected %+d)" % (type(o).__name__ if not symx.is_proxy(o) else repr(o), d, want))
+    # an object handed back without ANY reference operation on it is a borrowed reference given away as a new one
+    # (the immortal singletons keep no count under this build's headers and are left out, like everywhere in the balance)
+    if result is not NULL and id(result) not in it.st.rc and not _immortal(result):
+        bad.append("%s returned without a new reference (no Py_INCREF on the path)" % (type(result).__name__ if not symx.is_proxy(result) else repr(result)))
     return bad
 
 
+def _immortal(o):
+    if o is None or o is True or o is False or o is NotImplemented or o is Ellipsis:
+        return True
+    if symx.is_proxy(o) and getattr(o, "pytype", None) is bool:
+        return True
+    return False
+
+
+class _Shape(__import__("traits.api", fromlist=["TraitHandler"]).TraitHandler):
+    """a hand-written handler that only supplies a fast-validation descriptor (the documented extension point): descriptor
+    shapes the library's own trait types no longer produce, so that every loop of the compiled validators stays exercised"""
+
+    def __init__(self, fv):
+        self.fast_validate = fv
+
+
+SHAPES = {
+    "Shape:coerce-middle": (lambda ex: _Shape((11, float, int, None, str)), ["none", "bool", "int64", "intsub64", "inthuge", "float", "floatsub", "str", "object"]),
+    "Shape:coerce-middle-only": (lambda ex: _Shape((11, complex, float, int)), ["none", "bool", "int64", "inthuge", "float", "floatsub", "complex", "str"]),
+    "Shape:coerce-none-first": (lambda ex: _Shape((11, str, None, bytes, int)), ["none", "int", "str", "strsub", "bytes"]),
+}
+
+
 def validator_harness(cfgname, kind):
-    mk = c03.CONFIGS[cfgname][0]
+    mk = (c03.CONFIGS.get(cfgname) or SHAPES[cfgname])[0]
 
     def harness(ex):
         ttype = mk(ex)
         handler = ttype
+        if isinstance(handler, _Shape):
+            ttype = None
         from traits.api import Either
         if isinstance(ttype, Either):
             handler = ttype.as_ctrait().handler
@@ -679,6 +708,16 @@ def _sweep_value(ex, tag):
     return [None, None, "name", True, 2.5, (1, 2), [], {"k": 1}, c03.A(), (lambda *a: None)][k]
 
 
+def _same_field(a, b):
+    if a is b:
+        return True
+    if isinstance(a, int) and isinstance(b, int) and not isinstance(a, bool) and not isinstance(b, bool):
+        return a == b
+    if isinstance(a, FnPtr) and isinstance(b, FnPtr):
+        return a == b or getattr(a, "name", None) == getattr(b, "name", 1)
+    return False
+
+
 def sweep_harness(table, pyname, cname, flags):
     def harness(ex):
         o = _Sweep()
@@ -726,6 +765,11 @@ def sweep_harness(table, pyname, cname, flags):
                     problem = "value returned with an exception set"
         ex.check(problem is None, "every function reachable through the method / getset / module tables is memory-safe and follows the "
                                   "NULL / -1 <=> exception convention, for arguments of any type and arity")
+        if problem is None and it.st.err is not None and isinstance(recv, Struct):
+            changed = sorted(f_ for f_ in set(before) | set(recv.f) if f_ not in ("pyobj", "pytype")
+                             and not _same_field(before.get(f_, NULL), recv.f.get(f_, NULL)))
+            ex.check(not changed, "a call that raises leaves the receiver's record as it was (a half-applied definition is read by later "
+                                  "accesses without the checks its setter makes)")
         if problem is None:
             # what the receiver's record now points to is legitimately held (+1), what it no longer points to was released (-1)
             held = {}
@@ -990,7 +1034,7 @@ def obligations(tier, build):
         obs.append(Obligation("subscript/%s" % which, subscript_harness(which),
                               bounds={"integer arguments": "any value PyArg_ParseTuple lets through (symbolic)"},
                               leverage="all integer arguments", witness_every=0, max_paths=20000))
-    cfgs = list(c03.CONFIGS.items())
+    cfgs = list(c03.CONFIGS.items()) + list(SHAPES.items())
     for cfg, (mk, kinds) in cfgs:
         if tier == "quick" and cfg.startswith(("EitherAdapt", "AdaptDefault")):
             continue
